@@ -138,6 +138,11 @@ def r_ctltable(ctx, g):
         raise vf.Incomplete("grammar rule control_name missing")
     gl = []
     e = cn["expr"]
+    # the list of names may be followed by a lookahead that ends the name (`( "size" | ... ) ~ !(EALPHA | ...)`)
+    if e["k"] == "seq":
+        body = [x for x in e["e"] if x["k"] not in ("neg", "pos")]
+        if len(body) == 1:
+            e = body[0]
     alts = e["e"] if e["k"] == "choice" else [e]
     for a in alts:
         s = g.literal(a)
@@ -184,6 +189,60 @@ def r_ctltable(ctx, g):
         if var in seen:
             ctx.violation(rid, "alias:%s" % lit, TOKEN, lfn.line, "\"%s\" and \"%s\" both map to %s" % (lit, seen[var], var))
         seen[var] = lit
+
+
+def r_ctlboundary(ctx, g):
+    rid = "C03.ctlboundary"
+    ctx.rule(rid, "a control name ends where an identifier would end (RFC 8610: ctlop = \".\" id): control_name, evaluated with PEG semantics, "
+                  "matches no proper prefix of a longer identifier — `.sizes` is the unknown control `sizes`, not `.size` followed by `s`; "
+                  "and only `#6` carries a parenthesised content type: tag_expr consumes `#6.5(int)` whole but stops before the parenthesis "
+                  "of `#1.5(int)`, `#0(int)`, `#7.25(int)`", floor=30)
+    m = pestg.Matcher(ctx.facts.grammar())
+    cn = g.rules.get("control_name")
+    if cn is None:
+        raise vf.Incomplete("grammar rule control_name missing")
+    names = sorted({x["v"] for x in vf_walk_grammar(cn["expr"]) if x.get("k") == "str" and x["v"] and x["v"][0].isalpha()})
+    if len(names) < 20:
+        raise vf.Incomplete("only %d control names found in control_name" % len(names))
+    line = cn.get("l")
+    seen = False
+    for k in names:
+        for c in ("s", "X", "7", "_", "-x", ".x", "$"):
+            w = k + c
+            if any(n.startswith(w) for n in names):
+                continue
+            try:
+                got = m.prefix("control_name", w)
+            except pestg.Unsupported as e:
+                raise vf.Incomplete("matcher: %s" % e)
+            ctx.site(rid, "%s+%s" % (k, c), "cddl.pest", line, {"text": w, "consumed": got})
+            if got is not None and got < len(w) and not seen:
+                seen = True
+                ctx.violation(rid, "control_name|prefix-of-identifier", "cddl.pest", line, "control_name consumes %r of %r: `.%s` is read as the control `.%s` "
+                              "followed by `%s` instead of being rejected as an unknown control" % (w[:got], w, w, w[:got], w[got:]))
+    te = g.rules.get("tag_expr")
+    if te is None:
+        raise vf.Incomplete("grammar rule tag_expr missing")
+    for text, want in (("#6.5(int)", 9), ("#6(int)", 7), ("#1.5(int)", 4), ("#0(int)", 2), ("#7.25(int)", 5), ("#6.5", 4), ("#1.5", 4), ("#", 1)):
+        try:
+            got = m.prefix("tag_expr", text)
+        except pestg.Unsupported as e:
+            raise vf.Incomplete("matcher: %s" % e)
+        ctx.site(rid, "tag_expr|" + text, "cddl.pest", te.get("l"), {"consumed": got, "expected": want})
+        if got != want:
+            ctx.violation(rid, "tag_expr|content-type-after-major-%s" % text[1:2] if text[1:2].isdigit() and text[1:2] != "6" else "tag_expr|" + text, "cddl.pest", te.get("l"),
+                          "tag_expr consumes %r of %r (expected %r): a parenthesised type after a major type other than 6 is not derivable, "
+                          "and the converter drops it" % (text[:got] if got is not None else None, text, text[:want]))
+
+
+def vf_walk_grammar(e):
+    if isinstance(e, dict):
+        yield e
+        for v in e.values():
+            yield from vf_walk_grammar(v)
+    elif isinstance(e, list):
+        for v in e:
+            yield from vf_walk_grammar(v)
 
 
 def r_juncture(ctx, g):
@@ -762,7 +821,7 @@ def _lex_feature(cls, kind, body):
 def run(ctx):
     g = pestg.G(ctx.facts.grammar())
     for name, fn in (("C03.prefix", r_prefix), ("C03.ctltable", r_ctltable), ("C03.juncture", r_juncture),
-                     ("C03.children", r_children), ("C03.order", r_order), ("C03.assign", r_assign), ("C03.occur", r_occur), ("C03.rulehead", r_rulehead), ("C03.type1", r_type1), ("C03.lexical", r_lexical)):
+                     ("C03.children", r_children), ("C03.order", r_order), ("C03.assign", r_assign), ("C03.occur", r_occur), ("C03.rulehead", r_rulehead), ("C03.type1", r_type1), ("C03.lexical", r_lexical), ("C03.ctlboundary", r_ctlboundary)):
         ctx.guarded(name, lambda c, fn=fn: fn(c, g))
     # which text literals the parser accepts also depends on the unescaping function the bridge applies to every text literal:
     # the grammar admits any hex digits after \\u, the function decides which of them denote a scalar value
